@@ -11,11 +11,12 @@
 // tree of draw answers -- every draw's range is discovered when the code asks
 // for it, and every answer of every draw is taken (odometer over the answer
 // vector, depth first) -- so every sample the code can produce for the given
-// store is produced, through the real tracker handout path (Server.announce ->
-// UpdatePeer, getPeerHandout -> LocalStore.GetPeers + origins + SortPeers; the
-// first answer sequence of every enumeration and every announce that builds or
-// moves the store go through the HTTP router as well), and every response is
-// checked against the clauses of the statement.
+// store is produced, through the real tracker HTTP handler (router ->
+// announceHandlerV2 -> Server.announce -> UpdatePeer, getPeerHandout ->
+// LocalStore.GetPeers + origins + SortPeers; the 7-agent units of the thorough
+// tier enter at Server.announce after the first answer sequence of every
+// enumeration), and every response is checked against the clauses of the
+// statement.
 //
 // One unit = (policy, limit, origins, swarm size L, walk, announcer): ONE
 // long-lived store is built by L announces; it then walks through completion
@@ -48,6 +49,12 @@ import (
 // rejection sampler answered with zeros would never end); beyond it the
 // answers cycle and the run is marked not exhaustive.
 const maxDrawsPerAnnounce = 64
+
+// directFromAgents: units with at least this many agents (thorough tier only:
+// 5040 draw sequences per announce) send only the first draw sequence of every
+// enumeration through the HTTP router and the others through Server.announce;
+// smaller units send every announce through the HTTP router.
+const directFromAgents = 7
 
 // maxSeqPerAnnounce bounds the draw-answer sequences of one (store, announcer).
 const maxSeqPerAnnounce = 200000
@@ -190,10 +197,8 @@ func atomicMax(p *int64, v int64) {
 // middleware, request decoding, response encoding); direct=true: through
 // Server.announce -- the function both HTTP endpoints delegate to once the
 // request is decoded (UpdatePeer, then getPeerHandout = store sample + origins
-// + policy), whose result the endpoints encode as the response. The per-request
-// cost of the HTTP layers is ~15x that of the handout path itself, so only the
-// announces that build / move the store and the first draw sequence of every
-// enumeration go through HTTP.
+// + policy), whose result the endpoints encode as the response (the HTTP layers
+// cost ~5x the handout path itself; see directFromAgents).
 func (s *sys) swarmAnnounce(agent int, complete bool, ds *drawSeq, direct bool) (int, []*core.PeerInfo, error) {
 	id := agentIDs[agentNames[agent]]
 	announcer := core.NewPeerInfo(id, "10.0.0."+fmt.Sprint(id[0]), 6000+int(id[0]), false, complete)
@@ -305,7 +310,7 @@ func (u swarmUnit) enumerate(run *evid.Run, s *sys, step int, flags uint, keep b
 	nseq := 0
 	for {
 		ds := &drawSeq{prefix: prefix}
-		code, peers, err := s.swarmAnnounce(u.announcer, complete, ds, nseq > 0)
+		code, peers, err := s.swarmAnnounce(u.announcer, complete, ds, nseq > 0 && u.agents >= directFromAgents)
 		if err != nil {
 			return nil, nil, fmt.Errorf("%s step %d draws %v: %v", u.name(), step, ds.taken, err)
 		}
@@ -410,9 +415,10 @@ func (u swarmUnit) runUnit(run *evid.Run, deadline time.Time) (bool, *swarmFail,
 func runSwarm(run *evid.Run, budget time.Duration) {
 	units := swarmUnits(run.Thorough())
 	deadline := time.Now().Add(budget)
-	// largest units first
+	// smallest units first: a time cap then cuts the largest swarms, not the
+	// core space just above the limit
 	jobs := make(chan swarmUnit, len(units))
-	for l := 9; l >= 1; l-- {
+	for l := 1; l <= 9; l++ {
 		for _, u := range units {
 			if u.agents == l {
 				jobs <- u
